@@ -603,6 +603,10 @@ func (c *SpecCtx) call(e *ast.CallExpr) *Val {
 				}
 			}
 			c.fail("unknown type %q in typeis", name)
+		case "itoa":
+			return scalar(itoaTerm(c.eval(e.Args[0]).T), types.Typ[types.String])
+		case "atoi":
+			return intV(strToInt(c.eval(e.Args[0]).T))
 		case "strprefix":
 			return boolV(StrPrefixOf(c.eval(e.Args[0]).T, c.eval(e.Args[1]).T))
 		case "strsuffix":
@@ -638,6 +642,22 @@ func (c *SpecCtx) call(e *ast.CallExpr) *Val {
 				c.fail("offset() of non-slice")
 			}
 			return intV(v.Off)
+		case "ref":
+			// ref(x): the object identity behind a pointer, interface, map or slice value
+			v := c.eval(e.Args[0])
+			switch v.K {
+			case kPtr:
+				return intV(v.L.Base)
+			case kIface:
+				return intV(v.Ptr)
+			case kSlice:
+				return intV(v.Arr)
+			case kScalar:
+				return intV(v.T)
+			case kNil:
+				return intV(IntLit(0))
+			}
+			c.fail("ref() of a value without identity")
 		case "arrayof":
 			v := c.deref(c.eval(e.Args[0]))
 			if v.K != kSlice {
